@@ -45,6 +45,44 @@ def model(drv, cmd, *args):
         return ("err", e.kind)
 
 
+def batched_rows(ck, tier, seed):
+    """batching must not change the distribution: with a context, row i of sample(n, context, batch_size=b) holds draws for
+    context row i only.  Distributions whose draws reveal their context row (mean = 1000 * row id, unit scale)."""
+    from torch import nn
+    from nflows.distributions import normal
+    from nflows.flows.base import Flow
+    from nflows.transforms.base import Transform
+
+    class Enc(nn.Module):
+        def forward(self, c):
+            return torch.cat([1000.0 * c, torch.zeros_like(c)], 1)
+
+    class Shift(Transform):
+        def forward(self, inputs, context=None):
+            return inputs - 1000.0 * context, inputs.new_zeros(inputs.shape[0])
+
+        def inverse(self, inputs, context=None):
+            return inputs + 1000.0 * context, inputs.new_zeros(inputs.shape[0])
+    dists = {"ConditionalDiagonalNormal": normal.ConditionalDiagonalNormal([1], context_encoder=Enc()),
+             "Flow": Flow(Shift(), normal.StandardNormal([1]))}
+    ns = [1, 2, 3, 5, 6, 7] if tier == "quick" else list(range(1, 10))
+    for name, d in dists.items():
+        for rows in (1, 2, 3, 4):
+            ctx = torch.arange(1, rows + 1, dtype=torch.float32).reshape(rows, 1)
+            for n_, bs in itertools.product(ns, [None, 1, 2, 3, 4, 8]):
+                torch.manual_seed(seed + n_)
+                r = attempt(d.sample, n_, ctx, bs) if bs is not None else attempt(d.sample, n_, ctx)
+                ck.case(("rows", name, rows, n_, bs), nontrivial=rows > 1 and n_ > 1)
+                case = {"search": "batched-rows", "cls": name, "rows": rows, "n": n_, "bs": bs}
+                if r[0] != "ok" or list(r[1].shape) != [rows, n_, 1]:
+                    continue            # shapes are reported by the shape search
+                ids = torch.round(r[1][..., 0] / 1000.0)
+                want = ctx.expand(rows, n_)
+                if not torch.equal(ids, want):
+                    ck.finding("sample:draws-under-wrong-context-row:%s:%s" % (name, "batched" if bs is not None else "plain"),
+                               "sample(%d, %d context rows, batch_size=%s): rows hold draws for context ids %s" % (n_, rows, bs, ids.tolist()), case)
+
+
 def run(tier, seed):
     ck = Check("C18", tier, seed, areas=["shapes"], gen_groups=["DistBase", "Typechecks"])
     ck.rule = ("every distribution / flow class in the catalogue x num_samples 1..7 x batch_size {None,1..8} x context "
@@ -145,6 +183,7 @@ def run(tier, seed):
             if not (r[0] == "err" and r[1] == "TypeError"):
                 ck.finding("sample:bad-batch-size-not-TypeError:%s" % name.split("[")[0].split("(")[0],
                            "sample(3, batch_size=%r) -> %s" % (badbs, r[:2]), {"search": "badbs", "cls": name, "arg": repr(badbs)})
+    batched_rows(ck, tier, seed)
     if drv is not None:
         ck.sample({"call": "StandardNormal([2,3]).sample(5, context rows 4, batch_size 2)",
                    "model": model(drv, "sample", Z([2, 3]), p(5), Z([4, 7]), p(2), z(1))})
